@@ -330,6 +330,11 @@ def run(ctx: Ctx) -> None:
                 j = next((j for j, (a, b) in enumerate(zip(mn, after)) if a != b), min(len(mn), len(after)))
                 ctx.disagree("unit_scaling_backend_graph", {**key, "node": j}, mn[j] if j < len(mn) else None,
                              after[j] if j < len(after) else None, THMS)
+            # premise of the reachability theorems (deps_spec / marked_spec / unconstrained_set): the rewritten graph is
+            # topologically ordered with distinct ids — evaluated by the model's `topoB` (sound: `topoB_sound`)
+            if r.get("topo") is not True:
+                ctx.disagree("rewritten_graph_topological", key, True, r.get("topo"),
+                             ["USProofs.C16.marked_spec", "USProofs.C16.unconstrained_set", "USProofs.C16.constrained_kept"])
         # the model's tables vs the live ones
         import inspect
         t = driver.ask([{"k": "graph", "pass": "tables", "nodes": []}])[0]
